@@ -72,6 +72,19 @@ pub fn username_enforce(env: &Env, p: Prof, s: &str, tr: &mut Trace) -> Vec<R> {
         let d16 = env.d16();
         d16.ud.assigned.has(c as u32) && matches!(d16.bidi(c), crate::ucd::B_R | crate::ucd::B_AL | crate::ucd::B_AN)
     });
+    // Reference verdict of RFC 5893 wherever it does not meet the open known finding: a label that the RFC
+    // accepts and that has an NSM followed by a non-NSM (F4) is left to the library's own step; so is a label
+    // with a code point that is not assigned in 16.0.0 (no class to go by).
+    let d16 = env.d16();
+    if n.chars().all(|c| d16.ud.assigned.has(c as u32)) {
+        let classes: Vec<u8> = n.chars().map(|c| d16.bidi(c)).collect();
+        match refmodel::directionality(&classes) {
+            refmodel::BidiVerdict::Fails(_) => return vec![Out::Err(E::Invalid)],
+            refmodel::BidiVerdict::NoRtl => return vec![Out::Ok(n)],
+            refmodel::BidiVerdict::Ok if !refmodel::has_interior_nsm(&classes) => return vec![Out::Ok(n)],
+            refmodel::BidiVerdict::Ok => {}
+        }
+    }
     vec![api::rule(p, RuleK::Dir, &n)]
 }
 
